@@ -9,6 +9,7 @@ from .. import wire
 from ..core import as_violation
 from ..eio_client import ClientHarness
 
+RAISE = '__raise__'
 NSS = ['/', '/a', '/b']
 BAD = ['', '9', '2', '2[', '2{}', '3', '31', '5', '51-', '4', '2/a', 'x',
        '2/zzz,["a"]', '0/a,{', '2"a"', '2[1]', '1/zzz', '0/zzz,{"sid":"q"}',
@@ -20,7 +21,7 @@ def strategy(tier):
     nsi = st.integers(0, 2)
     arg = S.tree_st(with_bytes=True, max_leaves=4)
     ret = st.one_of(st.none(), arg, st.lists(arg, max_size=2).map(tuple),
-                    st.sampled_from([(), 0, '', b'']))
+                    st.sampled_from([(), 0, '', b'', RAISE, RAISE]))
     answer = st.sampled_from(['ok', 'ok', 'ok', 'err', 'silent'])
     op = st.one_of(
         st.fixed_dictionaries({
@@ -43,6 +44,10 @@ def strategy(tier):
                                                st.integers(0, 4)),
                                'args': st.lists(arg, max_size=2),
                                'ret': ret}),
+        st.fixed_dictionaries({'op': st.just('sv_fault_event'), 'ns': nsi,
+                               'binary': st.booleans(),
+                               'id': st.one_of(st.none(), st.integers(0, 4)),
+                               'id2': st.integers(0, 4)}),
         st.fixed_dictionaries({'op': st.just('sv_ack'), 'ns': nsi,
                                'id': st.integers(0, 4),
                                'args': st.lists(arg, max_size=2)}),
@@ -97,7 +102,10 @@ def _run(sc, aio, h):
     def result(args):
         for a in args:
             if isinstance(a, dict) and set(a) == {'__tag'}:
-                return rets.get(a['__tag'])
+                r = rets.get(a['__tag'])
+                if r == RAISE:
+                    raise RuntimeError('application handler fault')
+                return r
         return None
 
     def mk(kind):
@@ -266,6 +274,18 @@ def _run(sc, aio, h):
             rets[tag[0]] = op['ret']
             deliver(wire.EVENT, NSS[op['ns']], op['id'],
                     [op['name'], {'__tag': tag[0]}] + list(op['args']))
+        elif k == 'sv_fault_event':
+            labels['entry_points'].add('EVENT')
+            labels['faults'] += 1
+            tag[0] += 1
+            rets[tag[0]] = RAISE
+            args = [{'__tag': tag[0]}] + ([b'bin', {'k': b'x'}]
+                                          if op['binary'] else ['txt'])
+            deliver(wire.EVENT, NSS[op['ns']], op['id'], ['a'] + args)
+            tag[0] += 1
+            rets[tag[0]] = 'after-fault'
+            deliver(wire.EVENT, NSS[op['ns']], op['id2'],
+                    ['a', {'__tag': tag[0]}])
         elif k == 'sv_ack':
             labels['entry_points'].add('ACK')
             deliver(wire.ACK, NSS[op['ns']], op['id'], list(op['args']))
